@@ -342,12 +342,23 @@ def half_integral(x):
     return x >= 0 and math.isfinite(x) and float(2 * x).is_integer()
 
 
+def as_form(A, k):
+    """adjacency `A` (symmetric 0/1) as: 0 symmetric dense, 1 upper triangle only, 2 lower triangle only, 3-5 the same as CSR"""
+    import scipy.sparse as sps
+    M = np.array(A)
+    M = M if k % 3 == 0 else (np.triu(M, 1) if k % 3 == 1 else np.tril(M, -1))
+    return sps.csr_matrix(M) if k >= 3 else M
+
+
 def bracket_on_real_code(A, B, order, np_seed, mgh2=None):
     """the property predicate on the real public entry point; returns (ok, details)"""
     g = G()
-    np.random.seed(np_seed)
     with np.errstate(all="ignore"):
-        st, v, _ = call(g.gromov_hausdorff, np.array(A), np.array(B), mapping_sample_size_order=np.array(order))
+        # the same labelled graph in one of the forms the entry point documents (each edge stored once above or below the
+        # diagonal, or symmetrically; dense or CSR), chosen by the recorded seed so that a replay uses the same form
+        fa, fb = as_form(A, int(np_seed) % 6), as_form(B, (int(np_seed) // 6) % 6)
+        np.random.seed(np_seed)
+        st, v, _ = call(g.gromov_hausdorff, fa, fb, mapping_sample_size_order=np.array(order))
     if st == "err":
         return False, {"error": v}
     lb, ub = float(v[0]), float(v[1])
